@@ -3,6 +3,7 @@
 export RUSTUP_TOOLCHAIN=1.96.0 CARGO_NET_OFFLINE=true RUST_BACKTRACE=0
 cd /repo || exit 2
 out=$(mktemp)
+cargo test --workspace --no-run --offline >/dev/null 2>&1
 cargo nextest run --workspace --no-fail-fast --test-threads 8 --offline >"$out" 2>&1
 python3 - "$out" <<'PY'
 import json,re,sys
